@@ -232,22 +232,30 @@ def run(tier, seed, replay=None):
                            "label": label, "impl": val, "model": worst["expected"], "searched": stats},
                           no_failing_input=True)
         elif kind == "wfq":
-            src = worst["case"].split("|", 5)[-1].split("#")[0]
-            inp = worst["case"].split("|", 5)[4] if worst["case"].count("|") >= 5 else ""
-            what = src
-            if src.startswith("vg:"):
-                try:
-                    what = "pest_vm grammar `%s`, start rule r0" % bytes.fromhex(src[3:]).decode("utf-8").strip().replace("\n", " ")
-                except ValueError:
-                    pass
-            elif src.startswith("pp:"):
-                what = "ParserState closure tree %s" % src[3:]
-            raw = worst["case"].rsplit("#", 1)[-1]
-            res.violation("a SUCCESSFUL parse returned a token stream that is not a well-formed queue (wfqb = false; %d such parses): %s on input `%s` "
-                          "yields %s" % (stats.get("wfq/other", len(ms)), what, inp, raw[:300]),
-                          {"theorem_or_correspondence": "C04 first sentence (exec_preserves_wfq): extracted wfqb on the token queue of a real parse result",
-                           "case": worst["case"], "source": what, "input": inp, "token_stream": raw,
-                           "impl": worst["impl"], "spec": worst["expected"]})
+            # one failing input per kind of source (generated grammar / closure tree / fixed grammar), the shortest each
+            groups = {}
+            for m in ms:
+                src0 = m["case"].split("|", 5)[-1].split("#")[0][:3]
+                if src0 not in groups or len(m["case"]) < len(groups[src0]["case"]):
+                    groups[src0] = m
+            for src0, w in sorted(groups.items()):
+                src = w["case"].split("|", 5)[-1].split("#")[0]
+                inp = w["case"].split("|", 5)[4] if w["case"].count("|") >= 5 else ""
+                what = src
+                if src.startswith("vg:"):
+                    try:
+                        what = "pest_vm grammar `%s`, start rule r0" % bytes.fromhex(src[3:]).decode("utf-8").strip().replace("\n", " ")
+                    except ValueError:
+                        pass
+                elif src.startswith("pp:"):
+                    what = "ParserState closure tree %s" % src[3:]
+                raw = w["case"].rsplit("#", 1)[-1]
+                res.violation("a SUCCESSFUL parse returned a token stream that is not a well-formed queue (wfqb = false; %d such parses in this run): %s on input `%s` "
+                              "yields %s" % (stats.get("wfq/other", len(ms)), what, inp, raw[:300]),
+                              {"theorem_or_correspondence": "C04 first sentence (exec_preserves_wfq): extracted wfqb on the token queue of a real parse result",
+                               "case": w["case"], "class": "other", "source": what, "input": inp, "token_stream": raw,
+                               "stream_legend": "S<pos> / E<rule>.<tag>.<pos> as Tokens yields them; s<end idx>.<pos> / e<start idx>.<rule>.<tag>.<pos> = the real queue with cross-links",
+                               "impl": w["impl"], "spec": w["expected"]})
         elif kind == "thm":
             res.violation("extracted machines disagree with the extracted list machine on a well-formed queue (contradicts the proved refinement: "
                           "runner or extraction fault): %s %s" % (worst["case"], worst["impl"]),
